@@ -41,6 +41,11 @@ def reset():
 
 def idle_add(func, *args, **kw):
     s = STATE
+    s.idle_adds = getattr(s, 'idle_adds', 0) + 1
+    cap = getattr(s, 'idle_cap', None)
+    if cap is not None and s.idle_adds > cap:
+        from vf.engine import Cut
+        raise Cut('more than %d idle sources scheduled' % cap)
     sid = s.next_id
     s.next_id += 1
     s.sources[sid] = Source(sid, 'idle', func, args)
